@@ -1,0 +1,28 @@
+//go:build verif
+
+// Package config: machine-checked contracts (comment-only; read by /verif/govc).
+package config
+
+// policykey(p,d) is the map key of protocol p and destination port d. makePolicyKey is assumed to compute it
+// (strconv formatting is not modelled); that distinct (p,d) give distinct keys is checked by exhaustive
+// enumeration of the real function (bounded stand-in of C06, finite domain, complete).
+//@ fun policykey(p uint8, d uint16) string = uf("policykey", string, p, d)
+
+//@ func makePolicyKey
+//@   option trusted
+//@   modifies nothing
+//@   ensures is-key: result == policykey(protocol, dstPort)
+
+//@ func getInfoFromURL
+//@   invariant 1 built [C06]: len(protocols) <= 2 && 0 <= port && port <= 65535 && len(policyKeys) == rangeindex + 1 && rangeindex < len(protocols) && (forall j int :: 0 <= j && j < len(policyKeys) ==> policyKeys[j] == policykey(protocols[j], uint16(port)))
+//@   ensures tcp-admits-tcp [C06]: err == nil && u.Scheme == "tcp" ==> len(policyKeys) == 1 && policyKeys[0] == policykey(6, uint16(port))
+//@   ensures udp-admits-udp [C06]: err == nil && u.Scheme == "udp" ==> len(policyKeys) == 1 && policyKeys[0] == policykey(17, uint16(port))
+//@   ensures http-admits-both [C06]: err == nil && (u.Scheme == "http" || u.Scheme == "https") ==> len(policyKeys) == 2 && policyKeys[0] == policykey(6, uint16(port)) && policyKeys[1] == policykey(17, uint16(port))
+//@   ensures icmp6-admits-icmpv6 [C06]: err == nil && (u.Scheme == "icmp6" || u.Scheme == "ping6") ==> len(policyKeys) == 1 && policyKeys[0] == policykey(58, 0)
+//@   ensures other-schemes-refused [C06]: err == nil ==> (u.Scheme == "tcp" || u.Scheme == "udp" || u.Scheme == "http" || u.Scheme == "https" || u.Scheme == "icmp6" || u.Scheme == "ping6")
+//@   ensures port-range [C06]: err == nil ==> 0 <= port && port <= 65535
+
+// Default deny: traffic is admitted only if a service defines exactly this protocol and port and its rule admits the sender.
+//@ func Config.CheckInboundTrafficPolicy
+//@   modifies nothing
+//@   ensures default-deny [C06]: allowed == (has(c.inPolicy, policykey(protocol, dstPort)) && (c.inPolicy[policykey(protocol, dstPort)] == nil || has(c.inPolicy[policykey(protocol, dstPort)], src)))
